@@ -15,6 +15,7 @@ RULES = {
     "C17.R2": lambda ctx: fnrules.rev_iter(ctx, "C17.R2"),
     "C17.R3": lambda ctx: fnrules.classes(ctx, "C17.R3"),
     "C17.R3b": lambda ctx: fnrules.strip_shape(ctx, "C17.R3b"),
+    "C17.R0": lambda ctx: __import__("rules.foundations", fromlist=["x"]).accessors(ctx, "C17.R0", ['types::Token', 'TokenIter', 'types::SourceMap::get_token']),
     "C17.R4": lambda ctx: fnrules.fn_pf(ctx, "C17.R4"),
 }
 
